@@ -41,7 +41,14 @@ def run_extract():
     gen = os.path.join(LEAN, "RSV", "Gen")
     tmp = tempfile.mkdtemp(prefix="gen", dir=WORK)
     rc, out = sh([os.path.join(BIN, "extract"), REPO, tmp])
-    if rc != 0:
+    global TRANSLATOR_PROBLEM
+    TRANSLATOR_PROBLEM = None
+    if rc == 2 and all(os.path.exists(os.path.join(tmp, n)) for n in ("Tables.lean", "Facts.lean", "Switch.lean")):
+        # the Go-subset -> Lean function translator rejected a construct (tables, constants and the kernel switch were
+        # extracted): the previous Funcs.lean / MatrixGo.lean stay in place so that everything else still builds, and the
+        # rejection is a broken obligation of exactly the properties whose theorems rest on the regenerated functions
+        TRANSLATOR_PROBLEM = "translator: " + out.strip()[-600:]
+    elif rc != 0:
         shutil.rmtree(tmp, ignore_errors=True)
         return False, out
     os.makedirs(gen, exist_ok=True)
@@ -54,6 +61,9 @@ def run_extract():
     shutil.rmtree(tmp, ignore_errors=True)
     return True, ""
 
+
+TRANSLATOR_PROBLEM = None
+GEN_FUNC_MODULES = ("RSV.Gen.Funcs", "RSV.Gen.MatrixGo")
 
 _lake_lock = os.path.join(VERIF, "work", ".lake.lock")
 
